@@ -1,7 +1,7 @@
 (* C15 -- the same document always yields the same model.
    Statements only (proofs: Proofs/C15P.v).  `load` (Model/Loader.v) is a Gallina function: the same document gives
    the same flat model, with every iteration order the code takes from Python containers made explicit
-   (insertion order of dicts, document order of findall; transform_constants after the fix of F11).  What needs a
+   (insertion order of dicts, document order of findall; the code after the fix: commits cb3fd7e (F11) and 9e0bca6).  What needs a
    proof is that the ORDER of the order-free parts of a document does not matter.  Quantified over all documents
    and all permutations.
 
@@ -46,20 +46,20 @@ Theorem C15_groups_permutation : forall mc ue us cs gs gs' ks, Permutation gs gs
 Proof. exact groups_permutation. Qed.
 Print Assumptions C15_groups_permutation.
 
-(* FULL STRENGTH (false for the code as it is, see C15_connection_ends_swap_refuted):
+(* FULL STRENGTH (still false, see C15_connection_ends_swap_refuted):
      forall ..., load (mkDoc mc ue us cs gs (l1 ++ swap_conn k :: l2)) = load (mkDoc mc ue us cs gs (l1 ++ k :: l2)).
-   Proved with the guard "the direction decision is the same for both spellings of every map_variables of k";
-   C15_direction_symmetric gives the structural condition under which that holds: the components are siblings with
-   exactly one public `out`, or exactly one of them is the parent of the other -- i.e. every connection CellML allows. *)
+   After the fix: commit 9e0bca6 the direction decision is symmetric for siblings, for parent and child and for
+   unrelated components (C15_direction_symmetric).  The one remaining exception is a document whose <group>
+   elements make each of the two components the parent of the other -- a cycle in the encapsulation hierarchy,
+   which the loader does not refuse; the guard mutual_b = false excludes exactly that. *)
 Theorem C15_connection_ends_swap_partial : forall mc ue us cs gs l1 k l2,
   (forall names vars ps, add_components (mkDoc mc ue us cs gs (l1 ++ k :: l2)) = OK (names, vars) ->
-     add_relationships names gs = OK ps ->
-     forall p, In p (conn_pairs k) -> dir_of vars names ps (swap4 p) = dir_of vars names ps p) ->
+     add_relationships names gs = OK ps -> mutual_b names ps (k_c1 k) (k_c2 k) = false) ->
   load (mkDoc mc ue us cs gs (l1 ++ swap_conn k :: l2)) = load (mkDoc mc ue us cs gs (l1 ++ k :: l2)).
-Proof. exact ends_swap_guarded. Qed.
+Proof. exact ends_swap_guard. Qed.
 Print Assumptions C15_connection_ends_swap_partial.
 
-Theorem C15_direction_symmetric : forall vars names ps c1 v1 c2 v2, related_b vars names ps c1 v1 c2 v2 = true ->
+Theorem C15_direction_symmetric : forall vars names ps c1 v1 c2 v2, mutual_b names ps c1 c2 = false ->
   direction vars names ps c2 v2 c1 v1 = direction vars names ps c1 v1 c2 v2.
 Proof. exact direction_sym. Qed.
 Print Assumptions C15_direction_symmetric.
